@@ -35,3 +35,24 @@ pub extern "C" fn c19_probe(x: u32) -> u32 {
     }
     s + d + v.len() as u32
 }
+
+/// Without the alloc feature the default backend is the zero-capacity `Empty` (type equality is
+/// decided by the compiler), and the complete operation set is available on stack backends.
+#[no_mangle]
+pub extern "C" fn c19_default_backend_and_ops(x: u32) -> u32 {
+    use any_vec::mem::Empty;
+    let d: AnyVec<dyn None> = AnyVec::new::<u32>();
+    let e: AnyVec<dyn None, Empty> = d;
+    let mut v: AnyVec<dyn any_vec::traits::Cloneable, Stack<64>> = AnyVec::new::<u32>();
+    v.push(AnyValueWrapper::new(x));
+    v.push(AnyValueWrapper::new(x + 2));
+    let mut c = v.clone();
+    let _ = c.swap_remove(0);
+    let _ = c.pop();
+    c.clear();
+    let w = v.clone_empty_in(StackN::<2, 8>);
+    let n = v.splice(0..1, [AnyValueWrapper::new(9u32), AnyValueWrapper::new(8u32)]).count();
+    let a = *v.at(0).downcast_ref::<u32>().unwrap();
+    let g = v.get(7).is_none() as u32;
+    (e.capacity() + w.capacity() + v.as_bytes().len() + n) as u32 + a + g
+}
